@@ -24,7 +24,7 @@ ASSUMPTIONS = [
     "in lenient mode both FaultySNMPImplementation and a normal end are accepted for a non-advancing answer",
     "a non-advancing repetition in a GETBULK column that has already left its root may be ignored or refused",
 ]
-PROBES = ["same_oid", "smaller_oid", "leave_and_return", "eom_midway", "bulk_nonadvance_later_rep",
+PROBES = ["same_operation_run_before_on_this_client", "same_oid", "smaller_oid", "leave_and_return", "eom_midway", "bulk_nonadvance_later_rep",
           "lenient", "faulty_raised", "all_advance", "empty_bulk_response", "eom_under_foreign_name", "get_marker_in_getnext_answer", "truncated_bulk_answers"]
 shrink_lists = [("dev",), ("universe",), ("roots",)]
 OPS = ["walk", "multiwalk", "bulkwalk", "table", "bulktable"]
@@ -77,7 +77,10 @@ def plan_for(tier: str, seed: int, i: int) -> dict:
     # ... and it may legally truncate its GETBULK answers (fewer repetitions, cut inside a repetition)
     trng = rng_for(seed, ID, tier + ":trunc", i)
     policies = trng.sample(["full", "fewer", "partial"], trng.randrange(1, 4)) if op in ("bulkwalk", "bulktable") else ["full"]
-    return {"prop": ID, "op": op, "roots": roots, "universe": universe, "dev": dev,
+    # the same operation may already have been run once on this client against the same agent (a poller): what the first
+    # run met (a warning emitted, a faulty answer seen) must not change how the second one ends
+    history = "same" if rng_for(seed, ID, tier + ":hist", i).random() < 0.2 else None
+    return {"prop": ID, "op": op, "roots": roots, "universe": universe, "dev": dev, "history": history,
             "bulk": bulk, "errors": errors, "empty_from": empty_from, "policies": policies, "polseed": trng.getrandbits(32),
             "proto": {"version": "v2c", "community": "public"}}
 
@@ -101,6 +104,8 @@ def simplify(plan: dict):
         p = dict(plan); p["errors"] = "strict"; yield p
     if plan.get("policies") and plan["policies"] != ["full"]:
         p = dict(plan); p["policies"] = ["full"]; yield p
+    if plan.get("history"):
+        p = dict(plan); p["history"] = None; yield p
     if plan.get("empty_from"):
         p = dict(plan); p["empty_from"] = None; yield p
         if plan["empty_from"] > 1:
@@ -184,6 +189,17 @@ def execute(plan: dict) -> dict:
         async for vb in agen:
             delivered.append(oid_t(vb.oid))
 
+    if plan.get("history"):
+        try:
+            w.run(main())
+        except Exception:  # noqa: BLE001
+            pass                 # the earlier run is some other plan's run under test
+        w.settle()
+        agent.requests.clear()
+        agent.cap_hit = False
+        del served[:], delivered[:]
+        n_bulk[0] = empty_served[0] = dev_served = 0
+        table_rows = None
     try:
         w.run(main())
     except Exception as e:  # noqa: BLE001
@@ -285,6 +301,7 @@ def execute(plan: dict) -> dict:
         "leave_and_return": int(_leave_and_return(served, eff_roots)),
         "eom_midway": int("eom" in classes[:-1]),
         "bulk_nonadvance_later_rep": int(op in ("bulkwalk", "bulktable") and any_nonadv and not relevant_nonadv),
+        "same_operation_run_before_on_this_client": int(bool(plan.get("history"))),
         "lenient": int(lenient), "faulty_raised": int(excname == "FaultySNMPImplementation"),
         "all_advance": int(not any_nonadv), "empty_bulk_response": int(empty_served[0] > 0),
         "truncated_bulk_answers": int(op in ("bulkwalk", "bulktable") and (plan.get("policies") or ["full"]) != ["full"]),
